@@ -1,13 +1,1378 @@
 /-
-  placeholder — to be replaced by the port (see /verif/PORTING.md)
+  openflow13/openflow13.go, port.go, multipart.go, nxt_message.go, bundles.go — top-level messages and Parse.
+
+  Layouts (fields positionally; an embedded struct is one field):
+    SwitchConfig(Header,Flags,MissSendLen)            ErrorMsg(Header,Type,Code,u.Buffer(x..))
+    VendorError(ErrorMsg|~,ExperimenterID)            PacketOut(Header,BufferId,InPort,ActionsLen,pad,[Action],Data)
+    PacketIn(Header,BufferId,TotalLen,Reason,TableId,Cookie,Match,pad,p.Ethernet)
+    SwitchFeatures(Header,DPID,Buffers,NumTables,AuxilaryId,pad,Capabilities,Actions,[PhyPort])
+    VendorHeader(Header,Vendor,ExperimenterType,VendorData)
+    PhyPort(PortNo,pad,HWAddr,pad2,Name,Config,State,Curr,Advertised,Supported,Peer,CurrSpeed,MaxSpeed)
+    PortMod(Header,PortNo,pad,HWAddr,pad2,Config,Mask,Advertise,pad3)
+    MultipartRequest(Header,Type,Flags,pad,Body)      MultipartReply(Header,Type,Flags,pad,[Body])
+    DescStats(Mfr,HW,SW,Serial,DP)                    FlowStatsRequest / AggregateStatsRequest(TableId,pad,OutPort,OutGroup,pad2,Cookie,CookieMask,Match)
+    FlowStats(Length,TableId,pad,DurationSec,DurationNSec,Priority,IdleTimeout,HardTimeout,Flags,pad2,Cookie,PacketCount,ByteCount,Match,[Instruction])
+    AggregateStats(PacketCount,ByteCount,FlowCount,pad)
+    TableStats(TableId,pad,Name,Wildcards,MaxEntries,ActiveCount,LookupCount,MatchedCount)
+    PortStatsRequest(PortNo,pad)   PortStats(PortNo,pad,12 counters)   QueueStatsRequest(PortNo,pad,QueueId)
+    QueueStats(PortNo,pad,QueueId,TxBytes,TxPackets,TxErrors)          PortStatus(Header,Reason,pad,PhyPort)
+    ControllerID(pad[6],ID)   TLVTableMap(OptClass,OptType,OptLength,Index,pad[2])   TLVTableMod(Command,pad[6],[*TLVTableMap])
+    TLVTableReply(MaxSpace,MaxFields,reserved[10],[*TLVTableMap])      BundleControl(BundleID,Type,Flags)
+    BundlePropertyExperimenter(Type,Length,ExperimenterID,ExperimenterType,data)
+    BundleAdd(BundleID,pad[2],Flags,Message,[BundlePropertyExperimenter])
+
+  Recursion: a `util.Message`-typed field (PacketOut.Data, VendorHeader.VendorData, BundleAdd.Message, multipart bodies)
+  may hold any kind.  The container kinds take the function to use for their children as a parameter (`lenWith`,
+  `marshalWith`, `unmarshalWith`); `msgAnyLenD / msgAnyMarshalD` (encoders, depth 8) and `parseD` (decoder, depth from the
+  buffer size) tie the knot by structural recursion on a depth counter.
+
+  Names used from the other model files: Header.* / Hello.unmarshal / newHeader / kindsHeader (Header.lean);
+  Match.lenM / marshalM / unmarshal / unmarshalP / new, kindsMatch (Match.lean — `unmarshalP : V → Slice → R (V × Bool)`
+  = receiver after the call incl. the partial state, and whether an error was returned: FlowStats, FlowStatsRequest and
+  AggregateStatsRequest keep going after a Match error); Action.lenM / marshalM, DecodeAction, kindsAction (Action.lean);
+  Instruction.lenM / marshalM, DecodeInstr, FlowMod.unmarshal, FlowRemoved.unmarshal, kindsInstr (Instr.lean);
+  PEthernet.lenM / marshalM / unmarshal / zero, UBuffer.lenM / marshalM / unmarshal / zero, kindsProto (Proto.lean).
 -/
 import OFV.Model.OF.Instr
 import OFV.Model.Proto
 namespace OFV.Model
 open OFV OFV.Go
 
-def kindsMsg : KindTab := []
-def funcsMsg : FuncTab := []
-def methodsMsg : MethodTab := []
+/-! ### helpers -/
+
+/-- `err := x.UnmarshalBinary(d)` where the code goes on: (receiver after, error returned?).  Only for decoders that
+    leave the receiver untouched when they return an error (Header: the length check comes first). -/
+def msgTryU (f : V → Slice → R V) (recv : V) (d : Slice) : R (V × Bool) :=
+  match f recv d with
+  | .ok v => .ok (v, false)
+  | .err => .ok (recv, true)
+  | .panic => .panic
+  | .spin => .spin
+
+/-- `b, err = x.MarshalBinary()` whose error is overwritten afterwards: an erroring child contributes no bytes -/
+def msgTryM (f : V → R (Bytes × V)) (v : V) : R (Bytes × V) :=
+  match f v with
+  | .err => .ok ([], v)
+  | r => r
+
+/-- a `for cond { … }` loop whose progress is not monotone (uint16 cursors wrap).  One iteration is a function of the
+    cursor only, so the loop does not terminate iff a cursor value repeats: immediately (`cursor` unchanged) or after
+    at most 65536 further iterations (`fuel`). -/
+def msgLoopW {σ} (fuel : Nat) (cond : σ → Bool) (cursor : σ → Nat) (body : σ → R σ) (s : σ) : R σ :=
+  match fuel with
+  | 0 => .spin
+  | f + 1 =>
+    if cond s then
+      match body s with
+      | .ok s' => if cursor s' = cursor s then .spin else msgLoopW f cond cursor body s'
+      | .err => .err
+      | .panic => .panic
+      | .spin => .spin
+    else .ok s
+
+def msgHdrType (t : Nat) (h : V) : V :=
+  match h with
+  | .obj "Header" [a, _, c, d] => .obj "Header" [a, V.u8 (n8 t), c, d]
+  | v => v
+
+/-- NewOfp13Header() with Type set (Xid modelled as 0, programs overwrite it) -/
+def msgOfpHeader (t : Nat) : V := msgHdrType t (newHeader Gen.openflow13.VERSION 0)
+
+def msgMatchZero : V := .obj "Match" [.num 0, .num 0, .list []]
+
+/-! ### port.go -/
+
+namespace PhyPort
+def zero : V := .obj "PhyPort" [.num 0, .bytes [], .bytes [], .bytes [], .bytes [], .num 0, .num 0, .num 0, .num 0,
+  .num 0, .num 0, .num 0, .num 0]
+/-- NewPhyPort() -/
+def new : V := .obj "PhyPort" [.num 0, .bytes [], .bytes (zeros Gen.openflow13.ETH_ALEN), .bytes [], .bytes (zeros 16),
+  .num 0, .num 0, .num 0, .num 0, .num 0, .num 0, .num 0, .num 0]
+
+def len : V → R UInt16
+  | .obj "PhyPort" [_, _, .bytes hw, _, .bytes name, _, _, _, _, _, _, _, _] =>
+    .ok (4 + 6 + n16 (hw.length + name.length) + 32)
+  | _ => .panic
+def lenM (v : V) : R (UInt16 × V) := do let l ← len v; same l v
+
+def marshalM (v : V) : R (Bytes × V) := do
+  let l ← len v
+  match v with
+  | .obj "PhyPort" [.num no, .bytes pad, .bytes hw, .bytes pad2, .bytes name, .num cfg, .num st, .num cur, .num adv,
+      .num sup, .num peer, .num cs, .num ms] =>
+    let bs ← fill l.toNat [pU32 no, pCopyAdv pad 4, pCopy hw, pCopyAdv pad2 2, pCopy name,
+      pU32 cfg, pU32 st, pU32 cur, pU32 adv, pU32 sup, pU32 peer, pU32 cs, pU32 ms]
+    same bs v
+  | _ => .panic
+
+def unmarshal (recv : V) (data : Slice) : R V :=
+  match recv with
+  | .obj "PhyPort" [_, .bytes pad, .bytes hw, .bytes pad2, .bytes name, _, _, _, _, _, _, _, _] => do
+    let no ← data.u32From 0
+    let s1 ← data.sliceR 4 8
+    let s2 ← data.sliceR 8 14
+    let s3 ← data.sliceR 14 16
+    let s4 ← data.sliceR 16 32
+    let cfg ← data.u32From 32
+    let st ← data.u32From 36
+    let cur ← data.u32From 40
+    let adv ← data.u32From 44
+    let sup ← data.u32From 48
+    let peer ← data.u32From 52
+    let cs ← data.u32From 56
+    let ms ← data.u32From 60
+    pure (.obj "PhyPort" [V.u32 no, .bytes (copyInto pad s1.bytes), .bytes (copyInto hw s2.bytes),
+      .bytes (copyInto pad2 s3.bytes), .bytes (copyInto name s4.bytes), V.u32 cfg, V.u32 st, V.u32 cur, V.u32 adv,
+      V.u32 sup, V.u32 peer, V.u32 cs, V.u32 ms])
+  | _ => .panic
+end PhyPort
+
+namespace PortMod
+def zero : V := .obj "PortMod" [Header.zero, .num 0, .bytes [], .bytes [], .bytes [], .num 0, .num 0, .num 0, .bytes []]
+/-- NewPortMod(port): the header is NOT drawn from the generator (version 0, length 0, xid 0) -/
+def new (port : Nat) : V := .obj "PortMod" [msgHdrType Gen.openflow13.Type_PortMod Header.zero, V.u32 (n32 port), .bytes (zeros 4),
+  .bytes (zeros Gen.openflow13.ETH_ALEN), .bytes (zeros 2), .num 0, .num 0, .num 0, .bytes (zeros 4)]
+
+def lenM (v : V) : R (UInt16 × V) := same (8 + 4 + 4 + n16 Gen.openflow13.ETH_ALEN + 2 + 12 + 4) v
+
+def marshalM (v : V) : R (Bytes × V) := do
+  let (l, v) ← lenM v
+  match v with
+  | .obj "PortMod" [h, .num no, .bytes pad, .bytes hw, .bytes pad2, .num cfg, .num mask, .num adv, .bytes pad3] =>
+    let h := Header.setLength l h
+    let hb ← Header.bytes h
+    let b ← fill 32 [pU32 no, pCopyAdv pad 4, pCopyAdv hw Gen.openflow13.ETH_ALEN, pCopyAdv pad2 2, pU32 cfg, pU32 mask,
+      pU32 adv, pCopyAdv pad3 4]
+    .ok (hb ++ b, .obj "PortMod" [h, .num no, .bytes pad, .bytes hw, .bytes pad2, .num cfg, .num mask, .num adv, .bytes pad3])
+  | _ => .panic
+
+def unmarshal (recv : V) (data : Slice) : R V :=
+  match recv with
+  | .obj "PortMod" [h0, _, .bytes pad, .bytes hw, .bytes pad2, _, _, _, .bytes pad3] => do
+    let (h, e) ← msgTryU Header.unmarshal h0 data
+    let no ← data.u32From 8
+    let s1 ← data.sliceR 12 16
+    let s2 ← data.fromR 16
+    let n := 16 + hw.length
+    let s3 ← data.sliceR n (n + 2)
+    let cfg ← data.u32From (n + 2)
+    let mask ← data.u32From (n + 6)
+    let adv ← data.u32From (n + 10)
+    let s4 ← data.fromR (n + 14)
+    if e then .err else
+    pure (.obj "PortMod" [h, V.u32 no, .bytes (copyInto pad s1.bytes), .bytes (copyInto hw s2.bytes),
+      .bytes (copyInto pad2 s3.bytes), V.u32 cfg, V.u32 mask, V.u32 adv, .bytes (copyInto pad3 s4.bytes)])
+  | _ => .panic
+end PortMod
+
+/-! ### openflow13.go: SwitchConfig, ErrorMsg, SwitchFeatures, PacketIn -/
+
+namespace SwitchConfig
+def zero : V := .obj "SwitchConfig" [Header.zero, .num 0, .num 0]
+/-- NewSetConfig() -/
+def new : V := .obj "SwitchConfig" [msgOfpHeader Gen.openflow13.Type_SetConfig, .num 0, .num 0]
+def lenM (v : V) : R (UInt16 × V) := same 12 v
+def marshalM (v : V) : R (Bytes × V) := do
+  let (l0, v) ← lenM v
+  let (l1, v) ← lenM v
+  match v with
+  | .obj "SwitchConfig" [h, .num fl, .num ms] =>
+    let h := Header.setLength l1 h
+    let hb ← Header.bytes h
+    let bs ← fill l0.toNat [pCopy hb, pU16 fl, pU16 ms]
+    .ok (bs, .obj "SwitchConfig" [h, .num fl, .num ms])
+  | _ => .panic
+def unmarshal (recv : V) (data : Slice) : R V :=
+  match recv with
+  | .obj "SwitchConfig" [h0, _, _] => do
+    let (h, e) ← msgTryU Header.unmarshal h0 data
+    let fl ← data.u16From 8
+    let ms ← data.u16From 10
+    if e then .err else pure (.obj "SwitchConfig" [h, V.u16 fl, V.u16 ms])
+  | _ => .panic
+end SwitchConfig
+
+namespace ErrorMsg
+/-- new(ErrorMsg); NewErrorMsg() is the same value (an empty buffer) -/
+def zero : V := .obj "ErrorMsg" [Header.zero, .num 0, .num 0, UBuffer.zero]
+def lenM : V → R (UInt16 × V)
+  | .obj "ErrorMsg" [h, t, c, d] => do
+    let (l, d) ← UBuffer.lenM d
+    pure (8 + 2 + 2 + l, .obj "ErrorMsg" [h, t, c, d])
+  | _ => .panic
+/-- Header.Length is NOT updated by this encoder -/
+def marshalM (v : V) : R (Bytes × V) := do
+  let (l, v) ← lenM v
+  match v with
+  | .obj "ErrorMsg" [h, .num t, .num c, d] =>
+    let hb ← Header.bytes h
+    let (db, d) ← UBuffer.marshalM d
+    let bs ← fill l.toNat [pCopy hb, pU16 t, pU16 c, pCopy db]
+    .ok (bs, .obj "ErrorMsg" [h, .num t, .num c, d])
+  | _ => .panic
+/-- every error is dropped: the result is always nil (or a panic) -/
+def unmarshal (recv : V) (data : Slice) : R V :=
+  match recv with
+  | .obj "ErrorMsg" [h0, _, _, d0] => do
+    let (h, _) ← msgTryU Header.unmarshal h0 data
+    let t ← data.u16From 8
+    let c ← data.u16From 10
+    let s ← data.fromR 12
+    let d ← UBuffer.unmarshal d0 s
+    pure (.obj "ErrorMsg" [h, V.u16 t, V.u16 c, d])
+  | _ => .panic
+def errType : V → Nat
+  | .obj "ErrorMsg" [_, .num t, _, _] => t
+  | _ => 0
+end ErrorMsg
+
+namespace VendorError
+/-- new(VendorError): the embedded *ErrorMsg is nil -/
+def zero : V := .obj "VendorError" [.nil, .num 0]
+/-- NewBundleError() -/
+def new : V := .obj "VendorError" [.obj "ErrorMsg" [msgOfpHeader 0, .num Gen.openflow13.ET_EXPERIMENTER, .num 0, UBuffer.zero],
+  .num Gen.openflow13.ONF_EXPERIMENTER_ID]
+def lenM : V → R (UInt16 × V)
+  | .obj "VendorError" [.nil, _] => .panic
+  | .obj "VendorError" [e, x] => do
+    let (l, e) ← ErrorMsg.lenM e
+    pure (l + 4, .obj "VendorError" [e, x])
+  | _ => .panic
+def marshalM (v : V) : R (Bytes × V) := do
+  let (l, v) ← lenM v
+  match v with
+  | .obj "VendorError" [.obj "ErrorMsg" [h, .num t, .num c, d], .num x] =>
+    let hb ← Header.bytes h
+    let (db, d) ← UBuffer.marshalM d
+    let bs ← fill l.toNat [pCopy hb, pU16 t, pU16 c, pU32 x, pCopy db]
+    .ok (bs, .obj "VendorError" [.obj "ErrorMsg" [h, .num t, .num c, d], .num x])
+  | _ => .panic
+def unmarshal (recv : V) (data : Slice) : R V :=
+  match recv with
+  | .obj "VendorError" [_, _] => do
+    -- e.ErrorMsg = new(ErrorMsg)
+    let h ← Header.unmarshal Header.zero data
+    let t ← data.u16From 8
+    let c ← data.u16From 10
+    let x ← data.u32From 12
+    let s ← data.fromR 16
+    let d ← UBuffer.unmarshal UBuffer.zero s
+    pure (.obj "VendorError" [.obj "ErrorMsg" [h, V.u16 t, V.u16 c, d], V.u32 x])
+  | _ => .panic
+end VendorError
+
+namespace SwitchFeatures
+def zero : V := .obj "SwitchFeatures" [Header.zero, .bytes [], .num 0, .num 0, .num 0, .bytes [], .num 0, .num 0, .list []]
+/-- NewFeaturesReply() -/
+def new : V := .obj "SwitchFeatures" [msgOfpHeader Gen.openflow13.Type_FeaturesReply, .bytes (zeros 8), .num 0, .num 0, .num 0,
+  .bytes (zeros 2), .num 0, .num 0, .list []]
+
+/-- Ports is a slice of struct VALUES: the loop works on copies (PhyPort.Len changes nothing anyway) -/
+def lenM : V → R (UInt16 × V)
+  | .obj "SwitchFeatures" [h, .bytes dpid, b, nt, ax, pad, caps, acts, .list ports] => do
+    let (ls, _) ← mapM2 PhyPort.lenM ports
+    pure (8 + n16 dpid.length + 16 + sum16 ls, .obj "SwitchFeatures" [h, .bytes dpid, b, nt, ax, pad, caps, acts, .list ports])
+  | _ => .panic
+
+/-- DPID is counted by Len but never written; the ports follow the fixed part directly -/
+def marshalM (v : V) : R (Bytes × V) := do
+  let (l0, v) ← lenM v
+  let (l1, v) ← lenM v
+  match v with
+  | .obj "SwitchFeatures" [h, dpid, .num b, .num nt, .num ax, .bytes pad, .num caps, .num acts, .list ports] =>
+    let h := Header.setLength l1 h
+    let hb ← Header.bytes h
+    let (pbs, _) ← mapM2 PhyPort.marshalM ports
+    let bs ← fill l0.toNat ([pCopy hb, pU32 b, pU8 nt, pU8 ax, pCopy pad, pU32 caps, pU32 acts] ++ pbs.map pCopy)
+    .ok (bs, .obj "SwitchFeatures" [h, dpid, .num b, .num nt, .num ax, .bytes pad, .num caps, .num acts, .list ports])
+  | _ => .panic
+
+structure St where
+  next : Nat
+  ran : Bool
+
+/-- the decoded ports are thrown away (`p` is never appended to s.Ports); once the loop has run, the header's error
+    has been overwritten by PhyPort's nil -/
+def unmarshal (recv : V) (data : Slice) : R V :=
+  match recv with
+  | .obj "SwitchFeatures" [h0, .bytes dpid, _, _, _, .bytes pad, _, _, ports] => do
+    let (h, e) ← msgTryU Header.unmarshal h0 data
+    let s1 ← data.fromR 8
+    let n := 8 + dpid.length
+    let b ← data.u32From n
+    let nt ← data.byteAt (n + 4)
+    let ax ← data.byteAt (n + 5)
+    let s2 ← data.fromR (n + 6)
+    let n := n + 6 + pad.length
+    let caps ← data.u32From n
+    let acts ← data.u32From (n + 4)
+    let st ← goLoop (σ := St) (data.len + 1) (fun s => s.next < data.len) (·.next)
+      (fun s => do
+        let d ← data.fromR s.next
+        let p ← PhyPort.unmarshal PhyPort.new d
+        let l ← PhyPort.len p
+        pure { next := s.next + l.toNat, ran := true })
+      { next := n + 8, ran := false }
+    if e && !st.ran then .err else
+    pure (.obj "SwitchFeatures" [h, .bytes (copyInto dpid s1.bytes), V.u32 b, V.u8 nt, V.u8 ax, .bytes (copyInto pad s2.bytes),
+      V.u32 caps, V.u32 acts, ports])
+  | _ => .panic
+end SwitchFeatures
+
+namespace PacketIn
+/-- new(PacketIn) -/
+def zero : V := .obj "PacketIn" [Header.zero, .num 0, .num 0, .num 0, .num 0, .num 0, msgMatchZero, .bytes [], PEthernet.zero]
+/-- NewPacketIn() -/
+def new : V := .obj "PacketIn" [msgOfpHeader Gen.openflow13.Type_PacketIn, .num 4294967295, .num 0, .num 0, .num 0, .num 0,
+  Match.new, .bytes [], PEthernet.zero]
+
+def lenM : V → R (UInt16 × V)
+  | .obj "PacketIn" [h, b, t, r, ti, c, m, pad, eth] => do
+    let (lm, m) ← Match.lenM m
+    let (le, eth) ← PEthernet.lenM eth
+    pure (8 + 16 + lm + 2 + le, .obj "PacketIn" [h, b, t, r, ti, c, m, pad, eth])
+  | _ => .panic
+
+/-- Header.Length is not updated.  `PutUint64(b, p.Cookie)` is written at offset 0 of the 16-byte block, over
+    BufferId/TotalLen/Reason/TableId; bytes 8..15 stay zero. -/
+def marshalM : V → R (Bytes × V)
+  | .obj "PacketIn" [h, b, t, r, ti, .num c, m, .bytes pad, eth] => do
+    let hb ← Header.bytes h
+    let (mb, m) ← msgTryM Match.marshalM m
+    let (eb, eth) ← PEthernet.marshalM eth
+    pure (hb ++ (be64 (n64 c) ++ zeros 8) ++ mb ++ makeCopy 2 pad ++ eb, .obj "PacketIn" [h, b, t, r, ti, .num c, m, .bytes pad, eth])
+  | _ => .panic
+
+def unmarshal (recv : V) (data : Slice) : R V :=
+  match recv with
+  | .obj "PacketIn" [h0, _, _, _, _, _, m0, .bytes pad, eth0] => do
+    let (h, _) ← msgTryU Header.unmarshal h0 data     -- this error is overwritten below
+    let b ← data.u32From 8
+    let t ← data.u16From 12
+    let r ← data.byteAt 14
+    let ti ← data.byteAt 15
+    let c ← data.u64From 16
+    let dm ← data.fromR 24
+    let m ← Match.unmarshal m0 dm
+    let (lm, m) ← Match.lenM m
+    let n : UInt16 := 24 + lm
+    let s ← data.fromR n.toNat
+    let n := n + 2
+    let de ← data.fromR n.toNat
+    let eth ← PEthernet.unmarshal eth0 de
+    pure (.obj "PacketIn" [h, V.u32 b, V.u16 t, V.u8 r, V.u8 ti, V.u64 c, m, .bytes (copyInto pad s.bytes), eth])
+  | _ => .panic
+end PacketIn
+
+/-! ### multipart.go: stats bodies -/
+
+namespace DescStats
+def zero : V := .obj "DescStats" [.bytes [], .bytes [], .bytes [], .bytes [], .bytes []]
+/-- NewDescStats() -/
+def new : V := .obj "DescStats" [.bytes (zeros Gen.openflow13.DESC_STR_LEN), .bytes (zeros Gen.openflow13.DESC_STR_LEN),
+  .bytes (zeros Gen.openflow13.DESC_STR_LEN), .bytes (zeros Gen.openflow13.SERIAL_NUM_LEN), .bytes (zeros Gen.openflow13.DESC_STR_LEN)]
+def len : UInt16 := n16 (Gen.openflow13.DESC_STR_LEN * 4 + Gen.openflow13.SERIAL_NUM_LEN)
+def lenM (v : V) : R (UInt16 × V) := same len v
+def marshalM : V → R (Bytes × V)
+  | .obj "DescStats" [.bytes a, .bytes b, .bytes c, .bytes d, .bytes e] => do
+    let bs ← fill len.toNat [pCopy a, pCopy b, pCopy c, pCopy d, pCopy e]
+    same bs (.obj "DescStats" [.bytes a, .bytes b, .bytes c, .bytes d, .bytes e])
+  | _ => .panic
+/-- every field is filled up to its CURRENT length (nothing for a `new(DescStats)`) -/
+def unmarshal (recv : V) (data : Slice) : R V :=
+  match recv with
+  | .obj "DescStats" [.bytes a, .bytes b, .bytes c, .bytes d, .bytes e] => do
+    let sa ← data.fromR 0
+    let n := a.length
+    let sb ← data.fromR n
+    let n := n + b.length
+    let sc ← data.fromR n
+    let n := n + c.length
+    let sd ← data.fromR n
+    let n := n + d.length
+    let se ← data.fromR n
+    pure (.obj "DescStats" [.bytes (copyInto a sa.bytes), .bytes (copyInto b sb.bytes), .bytes (copyInto c sc.bytes),
+      .bytes (copyInto d sd.bytes), .bytes (copyInto e se.bytes)])
+  | _ => .panic
+end DescStats
+
+/- shared by FlowStatsRequest and AggregateStatsRequest (identical layout and code, except the error handling) -/
+namespace StatsReq
+def lenM (k : String) : V → R (UInt16 × V)
+  | .obj k' [t, p, op, og, p2, c, cm, m] =>
+    if k' ≠ k then .panic else do
+    let (lm, m) ← Match.lenM m
+    pure (lm + 32, .obj k [t, p, op, og, p2, c, cm, m])
+  | _ => .panic
+def marshalM (k : String) : V → R (Bytes × V)
+  | .obj k' [.num t, .bytes p, .num op, .num og, .bytes p2, .num c, .num cm, m] =>
+    if k' ≠ k then .panic else do
+    let bs ← fill 32 [pU8 t, pCopyAdv p 3, pU32 op, pU32 og, pCopyAdv p2 4, pU64 c, pU64 cm]
+    let (mb, m) ← Match.marshalM m
+    pure (bs ++ mb, .obj k [.num t, .bytes p, .num op, .num og, .bytes p2, .num c, .num cm, m])
+  | _ => .panic
+/-- (receiver after, did Match.UnmarshalBinary return an error) -/
+def unmarshalP (k : String) (recv : V) (data : Slice) : R (V × Bool) :=
+  match recv with
+  | .obj k' [_, .bytes p, _, _, .bytes p2, _, _, m0] =>
+    if k' ≠ k then .panic else do
+    let t ← data.byteAt 0
+    let s1 ← data.sliceR 1 4
+    let op ← data.u32From 4
+    let og ← data.u32From 8
+    let s2 ← data.sliceR 12 16
+    let c ← data.u64From 16
+    let cm ← data.u64From 24
+    let dm ← data.fromR 32
+    let (m, e) ← Match.unmarshalP m0 dm
+    let (_, m) ← Match.lenM m          -- n += int(s.Match.Len())
+    pure (.obj k [V.u8 t, .bytes (copyInto p s1.bytes), V.u32 op, V.u32 og, .bytes (copyInto p2 s2.bytes), V.u64 c, V.u64 cm, m], e)
+  | _ => .panic
+end StatsReq
+
+namespace FlowStatsRequest
+def zero : V := .obj "FlowStatsRequest" [.num 0, .bytes [], .num 0, .num 0, .bytes [], .num 0, .num 0, msgMatchZero]
+/-- NewFlowStatsRequest() -/
+def new : V := .obj "FlowStatsRequest" [.num 0, .bytes (zeros 3), .num Gen.openflow13.P_ANY, .num Gen.openflow13.OFPG_ANY,
+  .bytes (zeros 4), .num 0, .num 0, Match.new]
+def lenM : V → R (UInt16 × V) := StatsReq.lenM "FlowStatsRequest"
+def marshalM : V → R (Bytes × V) := StatsReq.marshalM "FlowStatsRequest"
+def unmarshal (recv : V) (data : Slice) : R V := do
+  let (v, e) ← StatsReq.unmarshalP "FlowStatsRequest" recv data
+  if e then .err else pure v
+end FlowStatsRequest
+
+namespace AggregateStatsRequest
+def zero : V := .obj "AggregateStatsRequest" [.num 0, .bytes [], .num 0, .num 0, .bytes [], .num 0, .num 0, msgMatchZero]
+/-- NewAggregateStatsRequest(): OutPort / OutGroup stay 0 -/
+def new : V := .obj "AggregateStatsRequest" [.num 0, .bytes (zeros 3), .num 0, .num 0, .bytes (zeros 4), .num 0, .num 0, Match.new]
+def lenM : V → R (UInt16 × V) := StatsReq.lenM "AggregateStatsRequest"
+def marshalM : V → R (Bytes × V) := StatsReq.marshalM "AggregateStatsRequest"
+/-- the Match error is dropped: always nil -/
+def unmarshal (recv : V) (data : Slice) : R V := do
+  let (v, _) ← StatsReq.unmarshalP "AggregateStatsRequest" recv data
+  pure v
+end AggregateStatsRequest
+
+namespace FlowStats
+def zero : V := .obj "FlowStats" [.num 0, .num 0, .num 0, .num 0, .num 0, .num 0, .num 0, .num 0, .num 0, .bytes [],
+  .num 0, .num 0, .num 0, msgMatchZero, .list []]
+/-- NewFlowStats() -/
+def new : V := .obj "FlowStats" [.num 0, .num 0, .num 0, .num 0, .num 0, .num 0, .num 0, .num 0, .num 0, .bytes (zeros 4),
+  .num 0, .num 0, .num 0, Match.new, .list []]
+
+def lenM : V → R (UInt16 × V)
+  | .obj "FlowStats" [a, b, c, d, e, f, g, h, i, j, k, l, m, mt, .list is] => do
+    let (lm, mt) ← Match.lenM mt
+    let (ls, is) ← mapM2 Instruction.lenM is
+    pure (48 + lm + sum16 ls, .obj "FlowStats" [a, b, c, d, e, f, g, h, i, j, k, l, m, mt, .list is])
+  | _ => .panic
+
+/-- the stored Length is written as is; err is the last child's -/
+def marshalM : V → R (Bytes × V)
+  | .obj "FlowStats" [.num ln, .num t, .num p, .num ds, .num dn, .num pr, .num it, .num ht, .num fl, .bytes p2,
+      .num c, .num pc, .num bc, mt, .list is] => do
+    let bs ← fill 48 [pU16 ln, pU8 t, pU8 p, pU32 ds, pU32 dn, pU16 pr, pU16 it, pU16 ht, pU16 fl, pCopy p2, pU64 c, pU64 pc, pU64 bc]
+    let fin (mt : V) (is : List V) : V := .obj "FlowStats" [.num ln, .num t, .num p, .num ds, .num dn, .num pr, .num it, .num ht,
+      .num fl, .bytes p2, .num c, .num pc, .num bc, mt, .list is]
+    match is.reverse with
+    | [] => do
+      let (mb, mt) ← Match.marshalM mt
+      pure (bs ++ mb, fin mt [])
+    | last :: revInit => do
+      let (mb, mt) ← msgTryM Match.marshalM mt
+      let (ibs, init) ← mapM2 (msgTryM Instruction.marshalM) revInit.reverse
+      let (lb, last) ← Instruction.marshalM last
+      pure (bs ++ mb ++ ibs.flatten ++ lb, fin mt (init ++ [last]))
+  | _ => .panic
+
+structure ISt where
+  n : Nat
+  is : List V
+
+/-- `for n < limit { instr := DecodeInstr(data[n:]); list = append(list, instr); n += int(instr.Len()) }` -/
+def decodeInstrs (data : Slice) (limit : Nat) (n0 : Nat) (is0 : List V) : R (List V) := do
+  let st ← goLoop (σ := ISt) (data.len + 65536) (fun s => s.n < limit) (·.n)
+    (fun s => do
+      let d ← data.fromR s.n
+      let i ← DecodeInstr d
+      let (l, i) ← Instruction.lenM i
+      pure { n := s.n + l.toNat, is := s.is ++ [i] })
+    { n := n0, is := is0 }
+  pure st.is
+
+/-- (receiver after, did Match.UnmarshalBinary return an error): the instruction loop runs in both cases -/
+def unmarshalP (recv : V) (data : Slice) : R (V × Bool) :=
+  match recv with
+  | .obj "FlowStats" [_, _, _, _, _, _, _, _, _, .bytes p2, _, _, _, m0, .list is0] => do
+    let ln ← data.u16From 0
+    let t ← data.byteAt 2
+    let p ← data.byteAt 3
+    let ds ← data.u32From 4
+    let dn ← data.u32From 8
+    let pr ← data.u16From 12
+    let it ← data.u16From 14
+    let ht ← data.u16From 16
+    let fl ← data.u16From 18
+    let s ← data.sliceR 20 24
+    let c ← data.u64From 24
+    let pc ← data.u64From 32
+    let bc ← data.u64From 40
+    let dm ← data.fromR 48
+    let (mt, e) ← Match.unmarshalP m0 dm
+    let (lm, mt) ← Match.lenM mt
+    let is ← decodeInstrs data ln.toNat (48 + lm.toNat) is0
+    pure (.obj "FlowStats" [V.u16 ln, V.u8 t, V.u8 p, V.u32 ds, V.u32 dn, V.u16 pr, V.u16 it, V.u16 ht, V.u16 fl,
+      .bytes (copyInto p2 s.bytes), V.u64 c, V.u64 pc, V.u64 bc, mt, .list is], e)
+  | _ => .panic
+def unmarshal (recv : V) (data : Slice) : R V := do
+  let (v, e) ← unmarshalP recv data
+  if e then .err else pure v
+end FlowStats
+
+namespace AggregateStats
+def zero : V := .obj "AggregateStats" [.num 0, .num 0, .num 0, .bytes []]
+def new : V := .obj "AggregateStats" [.num 0, .num 0, .num 0, .bytes (zeros 4)]
+def lenM (v : V) : R (UInt16 × V) := same 24 v
+def marshalM : V → R (Bytes × V)
+  | .obj "AggregateStats" [.num pc, .num bc, .num fc, .bytes pad] => do
+    let bs ← fill 24 [pU64 pc, pU64 bc, pU32 fc, pCopyAdv pad 4]
+    same bs (.obj "AggregateStats" [.num pc, .num bc, .num fc, .bytes pad])
+  | _ => .panic
+def unmarshal (recv : V) (data : Slice) : R V :=
+  match recv with
+  | .obj "AggregateStats" [_, _, _, .bytes pad] => do
+    let pc ← data.u64From 0
+    let bc ← data.u64From 8
+    let fc ← data.u32From 16
+    let s ← data.fromR 20
+    pure (.obj "AggregateStats" [V.u64 pc, V.u64 bc, V.u32 fc, .bytes (copyInto pad s.bytes)])
+  | _ => .panic
+end AggregateStats
+
+namespace TableStats
+def zero : V := .obj "TableStats" [.num 0, .bytes [], .bytes [], .num 0, .num 0, .num 0, .num 0, .num 0]
+def new : V := .obj "TableStats" [.num 0, .bytes (zeros 3), .bytes (zeros Gen.openflow13.MAX_TABLE_NAME_LEN), .num 0, .num 0, .num 0, .num 0, .num 0]
+def len : UInt16 := 4 + n16 Gen.openflow13.MAX_TABLE_NAME_LEN + 28
+def lenM (v : V) : R (UInt16 × V) := same len v
+def marshalM : V → R (Bytes × V)
+  | .obj "TableStats" [.num t, .bytes pad, .bytes name, .num w, .num me, .num ac, .num lc, .num mc] => do
+    let bs ← fill len.toNat [pU8 t, pCopy pad, pCopy name, pU32 w, pU32 me, pU32 ac, pU64 lc, pU64 mc]
+    same bs (.obj "TableStats" [.num t, .bytes pad, .bytes name, .num w, .num me, .num ac, .num lc, .num mc])
+  | _ => .panic
+/-- offsets follow the CURRENT lengths of pad and Name (0 for a `new(TableStats)`) -/
+def unmarshal (recv : V) (data : Slice) : R V :=
+  match recv with
+  | .obj "TableStats" [_, .bytes pad, .bytes name, _, _, _, _, _] => do
+    let t ← data.byteAt 0
+    let s1 ← data.fromR 1
+    let n := 1 + pad.length
+    let s2 ← data.fromR n
+    let n := n + name.length
+    let w ← data.u32From n
+    let me ← data.u32From (n + 4)
+    let ac ← data.u32From (n + 8)
+    let lc ← data.u64From (n + 12)
+    let mc ← data.u64From (n + 20)
+    pure (.obj "TableStats" [V.u8 t, .bytes (copyInto pad s1.bytes), .bytes (copyInto name s2.bytes), V.u32 w, V.u32 me,
+      V.u32 ac, V.u64 lc, V.u64 mc])
+  | _ => .panic
+end TableStats
+
+namespace PortStatsRequest
+def zero : V := .obj "PortStatsRequest" [.num 0, .bytes []]
+def new : V := .obj "PortStatsRequest" [.num 0, .bytes (zeros 6)]
+def lenM (v : V) : R (UInt16 × V) := same 8 v
+def marshalM : V → R (Bytes × V)
+  | .obj "PortStatsRequest" [.num p, .bytes pad] => do
+    let bs ← fill 8 [pU16 p, pCopy pad]
+    same bs (.obj "PortStatsRequest" [.num p, .bytes pad])
+  | _ => .panic
+def unmarshal (recv : V) (data : Slice) : R V :=
+  match recv with
+  | .obj "PortStatsRequest" [_, .bytes pad] => do
+    let p ← data.u16From 0
+    let s ← data.fromR 2
+    pure (.obj "PortStatsRequest" [V.u16 p, .bytes (copyInto pad s.bytes)])
+  | _ => .panic
+end PortStatsRequest
+
+namespace PortStats
+def zero : V := .obj "PortStats" ([.num 0, .bytes []] ++ List.replicate 12 (.num 0))
+def new : V := .obj "PortStats" ([.num 0, .bytes (zeros 6)] ++ List.replicate 12 (.num 0))
+def lenM (v : V) : R (UInt16 × V) := same 104 v
+def marshalM : V → R (Bytes × V)
+  | .obj "PortStats" (.num p :: .bytes pad :: cs) =>
+    if cs.length ≠ 12 then .panic else do
+    let bs ← fill 104 (pU16 p :: pCopy pad :: cs.map (fun c => pU64 c.asNat))
+    same bs (.obj "PortStats" (.num p :: .bytes pad :: cs))
+  | _ => .panic
+/-- the twelve counters are read at 2+len(pad)+8i -/
+def readCounters (data : Slice) (n : Nat) : Nat → R (List V)
+  | 0 => .ok []
+  | k + 1 => do
+    let x ← data.u64From n
+    let rest ← readCounters data (n + 8) k
+    pure (V.u64 x :: rest)
+def unmarshal (recv : V) (data : Slice) : R V :=
+  match recv with
+  | .obj "PortStats" (_ :: .bytes pad :: _) => do
+    let p ← data.u16From 0
+    let s ← data.fromR 2
+    let cs ← readCounters data (2 + pad.length) 12
+    pure (.obj "PortStats" (V.u16 p :: .bytes (copyInto pad s.bytes) :: cs))
+  | _ => .panic
+end PortStats
+
+namespace QueueStatsRequest
+def zero : V := .obj "QueueStatsRequest" [.num 0, .bytes [], .num 0]
+def new : V := .obj "QueueStatsRequest" [.num 0, .bytes (zeros 2), .num 0]
+def lenM (v : V) : R (UInt16 × V) := same 8 v
+def marshalM : V → R (Bytes × V)
+  | .obj "QueueStatsRequest" [.num p, .bytes pad, .num q] => do
+    let bs ← fill 8 [pU16 p, pCopyAdv pad 2, pU32 q]
+    same bs (.obj "QueueStatsRequest" [.num p, .bytes pad, .num q])
+  | _ => .panic
+def unmarshal (recv : V) (data : Slice) : R V :=
+  match recv with
+  | .obj "QueueStatsRequest" [_, .bytes pad, _] => do
+    let p ← data.u16From 0
+    let s ← data.fromR 2
+    let q ← data.u32From 4
+    pure (.obj "QueueStatsRequest" [V.u16 p, .bytes (copyInto pad s.bytes), V.u32 q])
+  | _ => .panic
+end QueueStatsRequest
+
+namespace QueueStats
+def zero : V := .obj "QueueStats" [.num 0, .bytes [], .num 0, .num 0, .num 0, .num 0]
+def lenM (v : V) : R (UInt16 × V) := same 32 v
+def marshalM : V → R (Bytes × V)
+  | .obj "QueueStats" [.num p, .bytes pad, .num q, .num tb, .num tp, .num te] => do
+    let bs ← fill 32 [pU16 p, pCopyAdv pad 2, pU32 q, pU64 tb, pU64 tp, pU64 te]
+    same bs (.obj "QueueStats" [.num p, .bytes pad, .num q, .num tb, .num tp, .num te])
+  | _ => .panic
+/-- the decoder advances by len(pad) (0 for `new(QueueStats)`), the encoder by 2 -/
+def unmarshal (recv : V) (data : Slice) : R V :=
+  match recv with
+  | .obj "QueueStats" [_, .bytes pad, _, _, _, _] => do
+    let p ← data.u16From 0
+    let s ← data.fromR 2
+    let n := 2 + pad.length
+    let q ← data.u32From n
+    let tb ← data.u64From (n + 4)
+    let tp ← data.u64From (n + 12)
+    let te ← data.u64From (n + 20)
+    pure (.obj "QueueStats" [V.u16 p, .bytes (copyInto pad s.bytes), V.u32 q, V.u64 tb, V.u64 tp, V.u64 te])
+  | _ => .panic
+end QueueStats
+
+namespace PortStatus
+/-- new(PortStatus): pad, HWAddr, Name are nil -/
+def zero : V := .obj "PortStatus" [Header.zero, .num 0, .bytes [], PhyPort.zero]
+/-- NewPortStatus(): header type stays 0, Desc stays the zero PhyPort -/
+def new : V := .obj "PortStatus" [msgOfpHeader 0, .num 0, .bytes (zeros 7), PhyPort.zero]
+def lenM : V → R (UInt16 × V)
+  | .obj "PortStatus" [h, r, pad, d] => do
+    let (l, d) ← PhyPort.lenM d
+    pure (8 + 8 + l, .obj "PortStatus" [h, r, pad, d])
+  | _ => .panic
+def marshalM (v : V) : R (Bytes × V) := do
+  let (l, v) ← lenM v
+  match v with
+  | .obj "PortStatus" [h, .num r, .bytes pad, d] =>
+    let h := Header.setLength l h
+    let hb ← Header.bytes h
+    let (db, d) ← PhyPort.marshalM d
+    .ok (hb ++ ([n8 r] ++ makeCopy 7 pad) ++ db, .obj "PortStatus" [h, .num r, .bytes pad, d])
+  | _ => .panic
+/-- the header's error is overwritten by PhyPort's (always nil) -/
+def unmarshal (recv : V) (data : Slice) : R V :=
+  match recv with
+  | .obj "PortStatus" [h0, _, .bytes pad, d0] => do
+    let (h, _) ← msgTryU Header.unmarshal h0 data
+    let r ← data.byteAt 8
+    let s ← data.fromR 9
+    let dd ← data.fromR (9 + pad.length)
+    let d ← PhyPort.unmarshal d0 dd
+    pure (.obj "PortStatus" [h, V.u8 r, .bytes (copyInto pad s.bytes), d])
+  | _ => .panic
+end PortStatus
+
+/-! ### nxt_message.go -/
+
+namespace ControllerID
+def zero : V := .obj "ControllerID" [.bytes (zeros 6), .num 0]
+def lenM (v : V) : R (UInt16 × V) := same 8 v
+/-- the pad array is not written -/
+def marshalM : V → R (Bytes × V)
+  | .obj "ControllerID" [p, .num id] => same (zeros 6 ++ be16 (n16 id)) (.obj "ControllerID" [p, .num id])
+  | _ => .panic
+def unmarshal (recv : V) (data : Slice) : R V :=
+  match recv with
+  | .obj "ControllerID" [p, _] =>
+    if data.len < 8 then .err else do
+      let id ← data.u16From 6
+      pure (.obj "ControllerID" [p, V.u16 id])
+  | _ => .panic
+end ControllerID
+
+namespace TLVTableMap
+def zero : V := .obj "TLVTableMap" [.num 0, .num 0, .num 0, .num 0, .bytes (zeros 2)]
+/-- `len(t.pad)` of an array is a constant: Len() works on a nil *TLVTableMap too -/
+def lenM (v : V) : R (UInt16 × V) := same 8 v
+def marshalM : V → R (Bytes × V)
+  | .obj "TLVTableMap" [.num c, .num t, .num l, .num i, p] => do
+    let bs ← fill 8 [pU16 c, pU8 t, pU8 l, pU16 i]
+    same bs (.obj "TLVTableMap" [.num c, .num t, .num l, .num i, p])
+  | _ => .panic
+def unmarshal (recv : V) (data : Slice) : R V :=
+  match recv with
+  | .obj "TLVTableMap" [_, _, _, _, p] =>
+    if data.len < 8 then .err else do
+      let c ← data.u16From 0
+      let t ← data.byteAt 2
+      let l ← data.byteAt 3
+      let i ← data.u16From 4
+      pure (.obj "TLVTableMap" [V.u16 c, V.u8 t, V.u8 l, V.u16 i, p])
+  | _ => .panic
+
+structure St where
+  n : Nat
+  maps : List V
+
+/-- `for n < len(data) { m := new(TLVTableMap); if err := m.UnmarshalBinary(data[n:]) … return err; n += 8; append }` -/
+def decodeList (data : Slice) (n0 : Nat) (maps0 : List V) : R (List V) := do
+  let st ← goLoop (σ := St) (data.len + 1) (fun s => s.n < data.len) (·.n)
+    (fun s => do
+      let d ← data.fromR s.n
+      let m ← unmarshal zero d
+      pure { n := s.n + 8, maps := s.maps ++ [m] })
+    { n := n0, maps := maps0 }
+  pure st.maps
+end TLVTableMap
+
+namespace TLVTableMod
+def zero : V := .obj "TLVTableMod" [.num 0, .bytes (zeros 6), .list []]
+def lenM : V → R (UInt16 × V)
+  | .obj "TLVTableMod" [c, p, .list ms] => do
+    let (ls, ms) ← mapM2 TLVTableMap.lenM ms
+    pure (8 + sum16 ls, .obj "TLVTableMod" [c, p, .list ms])
+  | _ => .panic
+def marshalM (v : V) : R (Bytes × V) := do
+  let (l, v) ← lenM v
+  match v with
+  | .obj "TLVTableMod" [.num c, p, .list ms] =>
+    let (bs, ms) ← mapM2 TLVTableMap.marshalM ms
+    let out ← fill l.toNat (pU16 c :: pSkip 6 :: bs.map pCopy)
+    .ok (out, .obj "TLVTableMod" [.num c, p, .list ms])
+  | _ => .panic
+def unmarshal (recv : V) (data : Slice) : R V :=
+  match recv with
+  | .obj "TLVTableMod" [_, p, .list ms0] =>
+    if data.len < 8 then .err else do
+      let c ← data.u16From 0
+      let ms ← TLVTableMap.decodeList data 8 ms0
+      pure (.obj "TLVTableMod" [V.u16 c, p, .list ms])
+  | _ => .panic
+end TLVTableMod
+
+namespace TLVTableReply
+def zero : V := .obj "TLVTableReply" [.num 0, .num 0, .bytes (zeros 10), .list []]
+def lenM : V → R (UInt16 × V)
+  | .obj "TLVTableReply" [a, b, r, .list ms] => do
+    let (ls, ms) ← mapM2 TLVTableMap.lenM ms
+    pure (16 + sum16 ls, .obj "TLVTableReply" [a, b, r, .list ms])
+  | _ => .panic
+def marshalM (v : V) : R (Bytes × V) := do
+  let (l, v) ← lenM v
+  match v with
+  | .obj "TLVTableReply" [.num a, .num b, r, .list ms] =>
+    let (bs, ms) ← mapM2 TLVTableMap.marshalM ms
+    let out ← fill l.toNat (pU32 a :: pU16 b :: pSkip 10 :: bs.map pCopy)
+    .ok (out, .obj "TLVTableReply" [.num a, .num b, r, .list ms])
+  | _ => .panic
+/-- no length check at all -/
+def unmarshal (recv : V) (data : Slice) : R V :=
+  match recv with
+  | .obj "TLVTableReply" [_, _, _, .list ms0] => do
+    let a ← data.u32From 0
+    let b ← data.u16From 4
+    let s ← data.sliceR 6 16
+    let ms ← TLVTableMap.decodeList data 16 ms0
+    pure (.obj "TLVTableReply" [V.u32 a, V.u16 b, .bytes (makeCopy 10 s.bytes), .list ms])
+  | _ => .panic
+end TLVTableReply
+
+/-! ### bundles.go: leaf kinds -/
+
+namespace BundleControl
+def zero : V := .obj "BundleControl" [.num 0, .num 0, .num 0]
+def lenM (v : V) : R (UInt16 × V) := same 8 v
+def marshalM : V → R (Bytes × V)
+  | .obj "BundleControl" [.num i, .num t, .num f] => do
+    let bs ← fill 8 [pU32 i, pU16 t, pU16 f]
+    same bs (.obj "BundleControl" [.num i, .num t, .num f])
+  | _ => .panic
+def unmarshal (_ : V) (data : Slice) : R V :=
+  if data.len < 8 then .err else do
+    let i ← data.u32From 0
+    let t ← data.u16From 4
+    let f ← data.u16From 6
+    pure (.obj "BundleControl" [V.u32 i, V.u16 t, V.u16 f])
+end BundleControl
+
+namespace BundlePropertyExperimenter
+def zero : V := .obj "BundlePropertyExperimenter" [.num 0, .num 0, .num 0, .num 0, .bytes []]
+/-- NewBundlePropertyExperimenter() -/
+def new : V := .obj "BundlePropertyExperimenter" [.num Gen.openflow13.OFPBPT_EXPERIMENTER, .num 0, .num 0, .num 0, .bytes []]
+def len : V → R UInt16
+  | .obj "BundlePropertyExperimenter" [_, _, _, _, .bytes d] => .ok (12 + n16 d.length)
+  | _ => .panic
+def lenM (v : V) : R (UInt16 × V) := do let l ← len v; same l v
+/-- `data = make([]byte, 0)` followed by `PutUint16(data[0:], …)`: the encoder always panics -/
+def marshalM (_ : V) : R (Bytes × V) := .panic
+/-- the payload is only kept when the buffer is SHORTER than the declared length -/
+def unmarshal (recv : V) (data : Slice) : R V := do
+  let l ← len recv
+  if data.len < l.toNat then .err else do
+    let t ← data.u16From 0
+    let ln ← data.u16From 2
+    let ei ← data.u32From 4
+    let et ← data.u32From 8
+    if data.len < ln.toNat then do
+      let s ← data.fromR 12
+      pure (.obj "BundlePropertyExperimenter" [V.u16 t, V.u16 ln, V.u32 ei, V.u32 et, .bytes s.bytes])
+    else
+      match recv with
+      | .obj _ [_, _, _, _, d] => pure (.obj "BundlePropertyExperimenter" [V.u16 t, V.u16 ln, V.u32 ei, V.u32 et, d])
+      | _ => .panic
+end BundlePropertyExperimenter
+
+/-! ### leaf table: every kind of this file that holds no `util.Message`-typed child -/
+
+def kindsMsgLeaf : KindTab := [
+  ("PhyPort", ⟨PhyPort.lenM, PhyPort.marshalM, PhyPort.unmarshal, PhyPort.zero⟩),
+  ("PortMod", ⟨PortMod.lenM, PortMod.marshalM, PortMod.unmarshal, PortMod.zero⟩),
+  ("SwitchConfig", ⟨SwitchConfig.lenM, SwitchConfig.marshalM, SwitchConfig.unmarshal, SwitchConfig.zero⟩),
+  ("ErrorMsg", ⟨ErrorMsg.lenM, ErrorMsg.marshalM, ErrorMsg.unmarshal, ErrorMsg.zero⟩),
+  ("VendorError", ⟨VendorError.lenM, VendorError.marshalM, VendorError.unmarshal, VendorError.zero⟩),
+  ("SwitchFeatures", ⟨SwitchFeatures.lenM, SwitchFeatures.marshalM, SwitchFeatures.unmarshal, SwitchFeatures.zero⟩),
+  ("PacketIn", ⟨PacketIn.lenM, PacketIn.marshalM, PacketIn.unmarshal, PacketIn.zero⟩),
+  ("DescStats", ⟨DescStats.lenM, DescStats.marshalM, DescStats.unmarshal, DescStats.zero⟩),
+  ("FlowStatsRequest", ⟨FlowStatsRequest.lenM, FlowStatsRequest.marshalM, FlowStatsRequest.unmarshal, FlowStatsRequest.zero⟩),
+  ("AggregateStatsRequest", ⟨AggregateStatsRequest.lenM, AggregateStatsRequest.marshalM, AggregateStatsRequest.unmarshal, AggregateStatsRequest.zero⟩),
+  ("FlowStats", ⟨FlowStats.lenM, FlowStats.marshalM, FlowStats.unmarshal, FlowStats.zero⟩),
+  ("AggregateStats", ⟨AggregateStats.lenM, AggregateStats.marshalM, AggregateStats.unmarshal, AggregateStats.zero⟩),
+  ("TableStats", ⟨TableStats.lenM, TableStats.marshalM, TableStats.unmarshal, TableStats.zero⟩),
+  ("PortStatsRequest", ⟨PortStatsRequest.lenM, PortStatsRequest.marshalM, PortStatsRequest.unmarshal, PortStatsRequest.zero⟩),
+  ("PortStats", ⟨PortStats.lenM, PortStats.marshalM, PortStats.unmarshal, PortStats.zero⟩),
+  ("QueueStatsRequest", ⟨QueueStatsRequest.lenM, QueueStatsRequest.marshalM, QueueStatsRequest.unmarshal, QueueStatsRequest.zero⟩),
+  ("QueueStats", ⟨QueueStats.lenM, QueueStats.marshalM, QueueStats.unmarshal, QueueStats.zero⟩),
+  ("PortStatus", ⟨PortStatus.lenM, PortStatus.marshalM, PortStatus.unmarshal, PortStatus.zero⟩),
+  ("ControllerID", ⟨ControllerID.lenM, ControllerID.marshalM, ControllerID.unmarshal, ControllerID.zero⟩),
+  ("TLVTableMap", ⟨TLVTableMap.lenM, TLVTableMap.marshalM, TLVTableMap.unmarshal, TLVTableMap.zero⟩),
+  ("TLVTableMod", ⟨TLVTableMod.lenM, TLVTableMod.marshalM, TLVTableMod.unmarshal, TLVTableMod.zero⟩),
+  ("TLVTableReply", ⟨TLVTableReply.lenM, TLVTableReply.marshalM, TLVTableReply.unmarshal, TLVTableReply.zero⟩),
+  ("BundleControl", ⟨BundleControl.lenM, BundleControl.marshalM, BundleControl.unmarshal, BundleControl.zero⟩),
+  ("BundlePropertyExperimenter", ⟨BundlePropertyExperimenter.lenM, BundlePropertyExperimenter.marshalM,
+      BundlePropertyExperimenter.unmarshal, BundlePropertyExperimenter.zero⟩)
+]
+
+/-! ### containers of `util.Message` children: parameterised by the functions used for the children -/
+
+abbrev MsgLenF := V → R (UInt16 × V)
+abbrev MsgMarF := V → R (Bytes × V)
+
+def msgLeafKinds : KindTab := kindsHeader ++ kindsMatch ++ kindsAction ++ kindsInstr ++ kindsProto ++ kindsMsgLeaf
+
+/-- `x.UnmarshalBinary(d)` on a non-nil interface value holding a leaf kind -/
+def msgLeafUnmarshal (recv : V) (d : Slice) : R V :=
+  match recv with
+  | .obj k _ =>
+    match msgLeafKinds.lookup k with
+    | some ops => ops.unmarshal recv d
+    | none => .panic     -- a container kind as pre-set receiver: not produced by any constructor
+  | _ => .panic
+
+namespace PacketOut
+/-- new(PacketOut) -/
+def zero : V := .obj "PacketOut" [Header.zero, .num 0, .num 0, .num 0, .bytes [], .list [], .nil]
+/-- NewPacketOut(): Data stays nil -/
+def new : V := .obj "PacketOut" [msgOfpHeader Gen.openflow13.Type_PacketOut, .num 4294967295, .num Gen.openflow13.P_ANY, .num 0,
+  .bytes (zeros 6), .list [], .nil]
+
+def lenWith (child : MsgLenF) : V → R (UInt16 × V)
+  | .obj "PacketOut" [h, b, ip, al, pad, .list as, d] => do
+    let (ls, as) ← mapM2 Action.lenM as
+    let (ld, d) ← child d                      -- nil Data: panic
+    pure (8 + 16 + sum16 ls + ld, .obj "PacketOut" [h, b, ip, al, pad, .list as, d])
+  | _ => .panic
+
+/-- err is the one of p.Data.MarshalBinary(); the actions' errors are overwritten -/
+def marshalWith (childLen : MsgLenF) (childMar : MsgMarF) (v : V) : R (Bytes × V) := do
+  let (l0, v) ← lenWith childLen v
+  let (l1, v) ← lenWith childLen v
+  match v with
+  | .obj "PacketOut" [h, .num b, .num ip, .num al, pad, .list as, d] =>
+    let h := Header.setLength l1 h
+    let hb ← Header.bytes h
+    let (abs, as) ← mapM2 (msgTryM Action.marshalM) as
+    let pre := [pCopy hb, pU32 b, pU32 ip, pU16 al, pSkip 6] ++ abs.map pCopy
+    let _ ← fill l0.toNat pre                  -- these writes happen (and may panic) before Data is encoded
+    let (db, d) ← childMar d
+    let bs ← fill l0.toNat (pre ++ [pCopy db])
+    .ok (bs, .obj "PacketOut" [h, .num b, .num ip, .num al, pad, .list as, d])
+  | _ => .panic
+
+structure St where
+  n : UInt16
+  as : List V
+
+/-- `for n < (n + p.ActionsLen)`: ends only by an error, a panic or a uint16 overflow of n+ActionsLen.
+    With the receivers Go ever builds (`new`, `NewPacketOut`) Data is nil, so a decode that survives the loop panics. -/
+def unmarshal (recv : V) (data : Slice) : R V :=
+  match recv with
+  | .obj "PacketOut" [h0, _, _, _, pad, .list as0, d0] => do
+    let (h, _) ← msgTryU Header.unmarshal h0 data
+    let b ← data.u32From 8
+    let ip ← data.u32From 12
+    let al ← data.u16From 16
+    let st ← msgLoopW (σ := St) 65537 (fun s => s.n < s.n + al) (·.n.toNat)
+      (fun s => do
+        let d ← data.fromR s.n.toNat
+        let a ← DecodeAction (data.cap + 1) d
+        let (l, a) ← Action.lenM a
+        pure { n := s.n + l, as := s.as ++ [a] })
+      { n := 24, as := as0 }
+    match d0 with
+    | .nil => .panic
+    | _ => do
+      let dd ← data.fromR st.n.toNat
+      let d ← msgLeafUnmarshal d0 dd
+      pure (.obj "PacketOut" [h, V.u32 b, V.u32 ip, V.u16 al, pad, .list st.as, d])
+  | _ => .panic
+
+/-- p.Actions = append(p.Actions, act); p.ActionsLen += act.Len() -/
+def addAction (recv : V) (act : V) : R V :=
+  match recv with
+  | .obj "PacketOut" [h, b, ip, .num al, pad, .list as, d] => do
+    let (l, act) ← Action.lenM act
+    pure (.obj "PacketOut" [h, b, ip, V.u16 (n16 al + l), pad, .list (as ++ [act]), d])
+  | _ => .panic
+
+def setData (recv : V) (bs : Bytes) : R V :=
+  match recv with
+  | .obj "PacketOut" [h, b, ip, al, pad, as, _] => pure (.obj "PacketOut" [h, b, ip, al, pad, as, .obj "u.Buffer" [.bytes bs]])
+  | _ => .panic
+
+/-- d, _ := p.Data.MarshalBinary() -/
+def getDataWith (childMar : MsgMarF) (recv : V) : R (V × Bytes) :=
+  match recv with
+  | .obj "PacketOut" [h, b, ip, al, pad, as, d] =>
+    match childMar d with
+    | .ok (bs, d) => .ok (.obj "PacketOut" [h, b, ip, al, pad, as, d], bs)
+    | .err => .ok (recv, [])
+    | .panic => .panic
+    | .spin => .spin
+  | _ => .panic
+end PacketOut
+
+namespace VendorHeader
+def zero : V := .obj "VendorHeader" [Header.zero, .num 0, .num 0, .nil]
+/-- NewNXTVendorHeader / NewBundleControl / NewBundleAdd … -/
+def mk (vendor ty : Nat) (d : V) : V :=
+  .obj "VendorHeader" [msgOfpHeader Gen.openflow13.Type_Experimenter, V.u32 (n32 vendor), V.u32 (n32 ty), d]
+
+def lenWith (child : MsgLenF) : V → R (UInt16 × V)
+  | .obj "VendorHeader" [h, vn, t, .nil] => .ok (16, .obj "VendorHeader" [h, vn, t, .nil])
+  | .obj "VendorHeader" [h, vn, t, d] => do
+    let (l, d) ← child d
+    pure (16 + l, .obj "VendorHeader" [h, vn, t, d])
+  | _ => .panic
+
+def marshalWith (childLen : MsgLenF) (childMar : MsgMarF) (v : V) : R (Bytes × V) := do
+  let (l1, v) ← lenWith childLen v             -- v.Header.Length = v.Len()
+  let (l2, v) ← lenWith childLen v             -- data = make([]byte, v.Len())
+  match v with
+  | .obj "VendorHeader" [h, .num vn, .num t, d] =>
+    let h := Header.setLength l1 h
+    let hb ← Header.bytes h
+    let pre := [pCopy hb, pU32 vn, pU32 t]
+    match d with
+    | .nil => do
+      let bs ← fill l2.toNat pre
+      .ok (bs, .obj "VendorHeader" [h, .num vn, .num t, d])
+    | _ => do
+      let _ ← fill l2.toNat pre
+      let (db, d) ← childMar d                 -- an error is returned
+      let bs ← fill l2.toNat (pre ++ [pCopy db])
+      .ok (bs, .obj "VendorHeader" [h, .num vn, .num t, d])
+  | _ => .panic
+
+/-- `decVD` = decodeVendorData(experimenterType, data[16:Header.Length]) -/
+def unmarshalWith (decVD : Nat → Slice → R V) (recv : V) (data : Slice) : R V :=
+  match recv with
+  | .obj "VendorHeader" [h0, _, _, d0] =>
+    if data.len < 16 then .err else do
+      let (h, _) ← msgTryU Header.unmarshal h0 data
+      let vn ← data.u32From 8
+      let t ← data.u32From 12
+      if 16 < Header.length h then do
+        let s ← data.sliceR 16 (Header.length h)
+        let d ← decVD t.toNat s
+        pure (.obj "VendorHeader" [h, V.u32 vn, V.u32 t, d])
+      else pure (.obj "VendorHeader" [h, V.u32 vn, V.u32 t, d0])
+  | _ => .panic
+end VendorHeader
+
+namespace BundleAdd
+def zero : V := .obj "BundleAdd" [.num 0, .bytes (zeros 2), .num 0, .nil, .list []]
+
+/-- Properties is a slice of VALUES -/
+def lenWith (child : MsgLenF) : V → R (UInt16 × V)
+  | .obj "BundleAdd" [i, p, f, m, .list ps] => do
+    let (lm, m) ← child m                      -- nil Message: panic
+    let (ls, _) ← mapM2 BundlePropertyExperimenter.lenM ps
+    pure (4 + 2 + 2 + lm + sum16 ls, .obj "BundleAdd" [i, p, f, m, .list ps])
+  | _ => .panic
+
+/-- any property makes the encoder panic (BundlePropertyExperimenter.MarshalBinary always does) -/
+def marshalWith (childLen : MsgLenF) (childMar : MsgMarF) (v : V) : R (Bytes × V) := do
+  let (l, v) ← lenWith childLen v
+  match v with
+  | .obj "BundleAdd" [.num i, p, .num f, m, .list ps] =>
+    let pre := [pU32 i, pSkip 2, pU16 f]
+    let _ ← fill l.toNat pre
+    let (mb, m) ← childMar m                   -- an error is returned
+    let (pbs, _) ← mapM2 BundlePropertyExperimenter.marshalM ps
+    let bs ← fill l.toNat (pre ++ [pCopy mb] ++ pbs.map pCopy)
+    .ok (bs, .obj "BundleAdd" [.num i, p, .num f, m, .list ps])
+  | _ => .panic
+
+structure St where
+  n : Nat
+  ps : List V
+
+/-- `parseF` = Parse; a nil message (Parse's `break` types) is dereferenced by `b.Message.Len()` -/
+def unmarshalWith (parseF : Slice → R V) (childLen : MsgLenF) (recv : V) (data : Slice) : R V :=
+  match recv with
+  | .obj "BundleAdd" [_, p, _, _, ps0] => do
+    let i ← data.u32From 0
+    let f ← data.u16From 6
+    let d ← data.fromR 8
+    let m ← parseF d
+    let (lm, m) ← childLen m
+    let n := 8 + lm.toNat
+    if n < data.len then do
+      let st ← goLoop (σ := St) (data.len + 1) (fun s => s.n < data.len) (·.n)
+        (fun s => do
+          let dp ← data.fromR s.n
+          let pr ← BundlePropertyExperimenter.unmarshal BundlePropertyExperimenter.zero dp
+          let l ← BundlePropertyExperimenter.len pr
+          pure { n := s.n + l.toNat, ps := s.ps ++ [pr] })
+        { n := n, ps := [] }
+      pure (.obj "BundleAdd" [V.u32 i, p, V.u16 f, m, .list st.ps])
+    else pure (.obj "BundleAdd" [V.u32 i, p, V.u16 f, m, ps0])
+  | _ => .panic
+end BundleAdd
+
+/-- decodeVendorData: an unknown experimenter type leaves `msg` nil and `msg.UnmarshalBinary` panics -/
+def decodeVendorDataWith (parseF : Slice → R V) (childLen : MsgLenF) (ty : Nat) (data : Slice) : R V :=
+  if ty = Gen.openflow13.Type_SetControllerId then ControllerID.unmarshal ControllerID.zero data
+  else if ty = Gen.openflow13.Type_TlvTableMod then TLVTableMod.unmarshal TLVTableMod.zero data
+  else if ty = Gen.openflow13.Type_TlvTableReply then TLVTableReply.unmarshal TLVTableReply.zero data
+  else if ty = Gen.openflow13.Type_BundleCtrl then BundleControl.unmarshal BundleControl.zero data
+  else if ty = Gen.openflow13.Type_BundleAdd then BundleAdd.unmarshalWith parseF childLen BundleAdd.zero data
+  else .panic
+
+namespace MultipartRequest
+def zero : V := .obj "MultipartRequest" [Header.zero, .num 0, .num 0, .bytes [], .nil]
+def lenWith (child : MsgLenF) : V → R (UInt16 × V)
+  | .obj "MultipartRequest" [h, t, f, p, b] => do
+    let (l, b) ← child b
+    pure (8 + 8 + l, .obj "MultipartRequest" [h, t, f, p, b])
+  | _ => .panic
+def marshalWith (childLen : MsgLenF) (childMar : MsgMarF) (v : V) : R (Bytes × V) := do
+  let (l, v) ← lenWith childLen v
+  match v with
+  | .obj "MultipartRequest" [h, .num t, .num f, p, b] =>
+    let h := Header.setLength l h
+    let hb ← Header.bytes h
+    let (bb, b) ← childMar b
+    .ok (hb ++ (be16 (n16 t) ++ be16 (n16 f) ++ zeros 4) ++ bb, .obj "MultipartRequest" [h, .num t, .num f, p, b])
+  | _ => .panic
+/-- the body is never decoded: the type switch only type-asserts the receiver's CURRENT Body (nil after `new`:
+    the assertion panics) and every other type is reported as unsupported -/
+def unmarshal (recv : V) (data : Slice) : R V :=
+  match recv with
+  | .obj "MultipartRequest" [h0, _, _, p, b] => do
+    let h ← Header.unmarshal h0 data
+    let t ← data.u16From 8
+    let f ← data.u16From 10
+    let want : Option String :=
+      if t.toNat = Gen.openflow13.MultipartType_Aggregate then some "AggregateStatsRequest"
+      else if t.toNat = Gen.openflow13.MultipartType_Flow then some "FlowStatsRequest"
+      else if t.toNat = Gen.openflow13.MultipartType_Port then some "PortStatsRequest"
+      else if t.toNat = Gen.openflow13.MultipartType_Queue then some "QueueStatsRequest"
+      else none
+    match want with
+    | none => .err
+    | some k => if b.kind = k then pure (.obj "MultipartRequest" [h, V.u16 t, V.u16 f, p, b]) else .panic
+  | _ => .panic
+end MultipartRequest
+
+namespace MultipartReply
+def zero : V := .obj "MultipartReply" [Header.zero, .num 0, .num 0, .bytes [], .list []]
+def lenWith (child : MsgLenF) : V → R (UInt16 × V)
+  | .obj "MultipartReply" [h, t, f, p, .list bs] => do
+    let (ls, bs) ← mapM2 child bs
+    pure (8 + 8 + sum16 ls, .obj "MultipartReply" [h, t, f, p, .list bs])
+  | _ => .panic
+/-- err is the LAST record's -/
+def marshalWith (childLen : MsgLenF) (childMar : MsgMarF) (v : V) : R (Bytes × V) := do
+  let (l, v) ← lenWith childLen v
+  match v with
+  | .obj "MultipartReply" [h, .num t, .num f, p, .list bs] =>
+    let h := Header.setLength l h
+    let hb ← Header.bytes h
+    let fixed := hb ++ (be16 (n16 t) ++ be16 (n16 f) ++ zeros 4)
+    match bs.reverse with
+    | [] => .ok (fixed, .obj "MultipartReply" [h, .num t, .num f, p, .list []])
+    | last :: revInit => do
+      let (ibs, init) ← mapM2 (msgTryM childMar) revInit.reverse
+      let (lb, last) ← childMar last
+      .ok (fixed ++ ibs.flatten ++ lb, .obj "MultipartReply" [h, .num t, .num f, p, .list (init ++ [last])])
+  | _ => .panic
+
+/-- `repl = new(T)` by multipart type, decoded from `d`: (record, error returned?) -/
+def decodeRecord (ty : Nat) (d : Slice) : R (V × Bool) :=
+  if ty = Gen.openflow13.MultipartType_Aggregate then msgTryU AggregateStats.unmarshal AggregateStats.zero d
+  else if ty = Gen.openflow13.MultipartType_Desc then msgTryU DescStats.unmarshal DescStats.zero d
+  else if ty = Gen.openflow13.MultipartType_Flow then FlowStats.unmarshalP FlowStats.zero d
+  else if ty = Gen.openflow13.MultipartType_Port then msgTryU PortStats.unmarshal PortStats.zero d
+  else if ty = Gen.openflow13.MultipartType_Table then msgTryU TableStats.unmarshal TableStats.zero d
+  else if ty = Gen.openflow13.MultipartType_Queue then msgTryU QueueStats.unmarshal QueueStats.zero d
+  else .panic     -- repl stays nil
+
+structure St where
+  n : UInt16
+  body : List V
+  err : Bool
+
+/-- the cursor is a uint16; err is the header's, overwritten by each record's -/
+def unmarshalWith (childLen : MsgLenF) (recv : V) (data : Slice) : R V :=
+  match recv with
+  | .obj "MultipartReply" [h0, _, _, p, _] => do
+    let (h, e) ← msgTryU Header.unmarshal h0 data
+    let t ← data.u16From 8
+    let f ← data.u16From 10
+    let st ← msgLoopW (σ := St) 65537 (fun s => s.n.toNat < Header.length h) (·.n.toNat)
+      (fun s => do
+        let d ← data.fromR s.n.toNat
+        let (r, e) ← decodeRecord t.toNat d
+        let (l, r) ← childLen r
+        pure { n := s.n + l, body := s.body ++ [r], err := e })
+      { n := 16, body := [], err := e }
+    if st.err then .err else pure (.obj "MultipartReply" [h, V.u16 t, V.u16 f, p, .list st.body])
+  | _ => .panic
+end MultipartReply
+
+/-! ### tying the knot: Len / MarshalBinary of an arbitrary `util.Message` value -/
+
+/-- `x.Len()` through the interface.  `depth` bounds the nesting of containers (generators stay far below 8);
+    running out of depth is unreachable. -/
+def msgAnyLenD : Nat → V → R (UInt16 × V)
+  | 0, _ => .panic
+  | d + 1, v =>
+    match v with
+    | .obj "PacketOut" _ => PacketOut.lenWith (msgAnyLenD d) v
+    | .obj "VendorHeader" _ => VendorHeader.lenWith (msgAnyLenD d) v
+    | .obj "BundleAdd" _ => BundleAdd.lenWith (msgAnyLenD d) v
+    | .obj "MultipartRequest" _ => MultipartRequest.lenWith (msgAnyLenD d) v
+    | .obj "MultipartReply" _ => MultipartReply.lenWith (msgAnyLenD d) v
+    | .obj k _ =>
+      match msgLeafKinds.lookup k with
+      | some ops => ops.lenM v
+      | none => .panic
+    | _ => .panic                                -- nil interface
+
+def msgAnyMarshalD : Nat → V → R (Bytes × V)
+  | 0, _ => .panic
+  | d + 1, v =>
+    match v with
+    | .obj "PacketOut" _ => PacketOut.marshalWith (msgAnyLenD d) (msgAnyMarshalD d) v
+    | .obj "VendorHeader" _ => VendorHeader.marshalWith (msgAnyLenD d) (msgAnyMarshalD d) v
+    | .obj "BundleAdd" _ => BundleAdd.marshalWith (msgAnyLenD d) (msgAnyMarshalD d) v
+    | .obj "MultipartRequest" _ => MultipartRequest.marshalWith (msgAnyLenD d) (msgAnyMarshalD d) v
+    | .obj "MultipartReply" _ => MultipartReply.marshalWith (msgAnyLenD d) (msgAnyMarshalD d) v
+    | .obj k _ =>
+      match msgLeafKinds.lookup k with
+      | some ops => ops.marshalM v
+      | none => .panic
+    | _ => .panic
+
+def anyLenM : V → R (UInt16 × V) := msgAnyLenD 8
+def anyMarshalM : V → R (Bytes × V) := msgAnyMarshalD 8
+
+/-! ### Parse -/
+
+/-- NewFlowMod() / NewFlowRemoved(): the receivers Parse decodes into -/
+def flowModRecv : V := .obj "FlowMod" [msgOfpHeader Gen.openflow13.Type_FlowMod, .num 0, .num 0, .num 0, .num 0, .num 0, .num 0,
+  .num 1000, .num 4294967295, .num Gen.openflow13.P_ANY, .num Gen.openflow13.OFPG_ANY, .num 0, .bytes [], Match.new, .list []]
+def flowRemovedRecv : V := .obj "FlowRemoved" [msgOfpHeader 0, .num 0, .num 0, .num 0, .num 0, .num 0, .num 0,
+  .num 0, .num 0, .num 0, .num 0, Match.new]
+
+/-- one level of Parse; `self` is Parse for the message embedded in a BundleAdd -/
+def parseStep (self : Slice → R V) (b : Slice) : R V := do
+  let tb ← b.byteAt 1
+  let t := tb.toNat
+  if t = Gen.openflow13.Type_Hello then Hello.unmarshal (.obj "Hello" [Header.zero, .list []]) b
+  else if t = Gen.openflow13.Type_Error then do
+    let e ← ErrorMsg.unmarshal ErrorMsg.zero b
+    if ErrorMsg.errType e = Gen.openflow13.ET_EXPERIMENTER then VendorError.unmarshal VendorError.zero b else pure e
+  else if t = Gen.openflow13.Type_EchoRequest ∨ t = Gen.openflow13.Type_EchoReply ∨ t = Gen.openflow13.Type_GetConfigRequest
+      ∨ t = Gen.openflow13.Type_BarrierRequest ∨ t = Gen.openflow13.Type_BarrierReply then Header.unmarshal Header.zero b
+  else if t = Gen.openflow13.Type_Experimenter then
+    VendorHeader.unmarshalWith (decodeVendorDataWith self anyLenM) VendorHeader.zero b
+  else if t = Gen.openflow13.Type_FeaturesRequest then Header.unmarshal (msgOfpHeader Gen.openflow13.Type_FeaturesRequest) b
+  else if t = Gen.openflow13.Type_FeaturesReply then SwitchFeatures.unmarshal SwitchFeatures.new b
+  else if t = Gen.openflow13.Type_GetConfigReply then SwitchConfig.unmarshal SwitchConfig.zero b
+  else if t = Gen.openflow13.Type_SetConfig then SwitchConfig.unmarshal SwitchConfig.new b
+  else if t = Gen.openflow13.Type_PacketIn then PacketIn.unmarshal PacketIn.zero b
+  else if t = Gen.openflow13.Type_FlowRemoved then FlowRemoved.unmarshal flowRemovedRecv b
+  else if t = Gen.openflow13.Type_PortStatus then PortStatus.unmarshal PortStatus.zero b
+  else if t = Gen.openflow13.Type_FlowMod then FlowMod.unmarshal flowModRecv b
+  else if t = Gen.openflow13.Type_PacketOut ∨ t = Gen.openflow13.Type_GroupMod ∨ t = Gen.openflow13.Type_PortMod
+      ∨ t = Gen.openflow13.Type_TableMod ∨ t = Gen.openflow13.Type_QueueGetConfigRequest
+      ∨ t = Gen.openflow13.Type_QueueGetConfigReply then pure .nil      -- `break`: (nil, nil)
+  else if t = Gen.openflow13.Type_MultiPartRequest then MultipartRequest.unmarshal MultipartRequest.zero b
+  else if t = Gen.openflow13.Type_MultiPartReply then MultipartReply.unmarshalWith anyLenM MultipartReply.zero b
+  else .err
+
+/-- Parse with an explicit nesting bound (each BundleAdd level consumes at least 24 bytes of the backing array);
+    depth 0 is unreachable when the bound is at least cap+1 -/
+def parseD : Nat → Slice → R V
+  | 0, _ => .panic
+  | d + 1, b => parseStep (parseD d) b
+
+/-- openflow13.Parse.  `depth` = nesting bound supplied by the caller (`data.len + 1`); since `data[16:Length]` in
+    VendorHeader may reach up to the capacity, the bound is raised to `cap + 1` when smaller. -/
+def parse (depth : Nat) (b : Slice) : R V := parseD (max depth (b.cap + 1)) b
+
+/-! ### the container kinds with the knot tied -/
+
+namespace PacketOut
+def lenM : V → R (UInt16 × V) := lenWith anyLenM
+def marshalM : V → R (Bytes × V) := marshalWith anyLenM anyMarshalM
+end PacketOut
+namespace VendorHeader
+def lenM : V → R (UInt16 × V) := lenWith anyLenM
+def marshalM : V → R (Bytes × V) := marshalWith anyLenM anyMarshalM
+def unmarshal (recv : V) (data : Slice) : R V :=
+  unmarshalWith (decodeVendorDataWith (parse (data.len + 1)) anyLenM) recv data
+end VendorHeader
+namespace BundleAdd
+def lenM : V → R (UInt16 × V) := lenWith anyLenM
+def marshalM : V → R (Bytes × V) := marshalWith anyLenM anyMarshalM
+def unmarshal (recv : V) (data : Slice) : R V := unmarshalWith (parse (data.len + 1)) anyLenM recv data
+end BundleAdd
+namespace MultipartRequest
+def lenM : V → R (UInt16 × V) := lenWith anyLenM
+def marshalM : V → R (Bytes × V) := marshalWith anyLenM anyMarshalM
+end MultipartRequest
+namespace MultipartReply
+def lenM : V → R (UInt16 × V) := lenWith anyLenM
+def marshalM : V → R (Bytes × V) := marshalWith anyLenM anyMarshalM
+def unmarshal : V → Slice → R V := unmarshalWith anyLenM
+end MultipartReply
+
+/-! ### tables -/
+
+def kindsMsg : KindTab := kindsMsgLeaf ++ [
+  ("PacketOut", ⟨PacketOut.lenM, PacketOut.marshalM, PacketOut.unmarshal, PacketOut.zero⟩),
+  ("VendorHeader", ⟨VendorHeader.lenM, VendorHeader.marshalM, VendorHeader.unmarshal, VendorHeader.zero⟩),
+  ("BundleAdd", ⟨BundleAdd.lenM, BundleAdd.marshalM, BundleAdd.unmarshal, BundleAdd.zero⟩),
+  ("MultipartRequest", ⟨MultipartRequest.lenM, MultipartRequest.marshalM, MultipartRequest.unmarshal, MultipartRequest.zero⟩),
+  ("MultipartReply", ⟨MultipartReply.lenM, MultipartReply.marshalM, MultipartReply.unmarshal, MultipartReply.zero⟩)
+]
+
+/-- a constructor without arguments -/
+def msgCtor0 (v : V) : List V → R (List V) := fun _ => ret1 v
+
+def funcsMsg : FuncTab := [
+  ("NewOfp13Header", msgCtor0 (msgOfpHeader 0)),
+  ("NewEchoRequest", msgCtor0 (msgOfpHeader Gen.openflow13.Type_EchoRequest)),
+  ("NewEchoReply", msgCtor0 (msgOfpHeader Gen.openflow13.Type_EchoReply)),
+  ("NewFeaturesRequest", msgCtor0 (msgOfpHeader Gen.openflow13.Type_FeaturesRequest)),
+  ("NewConfigRequest", msgCtor0 (msgOfpHeader Gen.openflow13.Type_GetConfigRequest)),
+  ("NewPacketOut", msgCtor0 PacketOut.new),
+  ("NewPacketIn", msgCtor0 PacketIn.new),
+  ("NewSetConfig", msgCtor0 SwitchConfig.new),
+  ("NewErrorMsg", msgCtor0 ErrorMsg.zero),
+  ("NewFeaturesReply", msgCtor0 SwitchFeatures.new),
+  ("NewPhyPort", msgCtor0 PhyPort.new),
+  ("NewPortMod", fun args => match args with
+    | [.num p] => ret1 (PortMod.new p)
+    | _ => .panic),
+  ("NewDescStats", msgCtor0 DescStats.new),
+  ("NewFlowStatsRequest", msgCtor0 FlowStatsRequest.new),
+  ("NewFlowStats", msgCtor0 FlowStats.new),
+  ("NewAggregateStatsRequest", msgCtor0 AggregateStatsRequest.new),
+  ("NewAggregateStats", msgCtor0 AggregateStats.new),
+  ("NewTableStats", msgCtor0 TableStats.new),
+  ("NewPortStatsRequest", msgCtor0 PortStatsRequest.new),
+  ("NewPortStats", msgCtor0 PortStats.new),
+  ("NewQueueStatsRequest", msgCtor0 QueueStatsRequest.new),
+  ("NewPortStatus", msgCtor0 PortStatus.new),
+  ("NewNXTVendorHeader", fun args => match args with
+    | [.num t] => ret1 (VendorHeader.mk Gen.openflow13.NxExperimenterID t .nil)
+    | _ => .panic),
+  ("NewSetControllerID", fun args => match args with
+    | [.num id] => ret1 (VendorHeader.mk Gen.openflow13.NxExperimenterID Gen.openflow13.Type_SetControllerId
+        (.obj "ControllerID" [.bytes (zeros 6), V.u16 (n16 id)]))
+    | _ => .panic),
+  ("NewTLVTableMod", fun args => match args with
+    | [.num c, .list ms] => ret1 (.obj "TLVTableMod" [V.u16 (n16 c), .bytes (zeros 6), .list ms])
+    | _ => .panic),
+  ("NewTLVTableModMessage", fun args => match args with
+    | [m] => ret1 (VendorHeader.mk Gen.openflow13.NxExperimenterID Gen.openflow13.Type_TlvTableMod m)
+    | _ => .panic),
+  ("NewTLVTableRequest", msgCtor0 (VendorHeader.mk Gen.openflow13.NxExperimenterID Gen.openflow13.Type_TlvTableRequest .nil)),
+  ("NewBundleControl", fun args => match args with
+    | [c] => ret1 (VendorHeader.mk Gen.openflow13.ONF_EXPERIMENTER_ID Gen.openflow13.Type_BundleCtrl c)
+    | _ => .panic),
+  ("NewBundlePropertyExperimenter", msgCtor0 BundlePropertyExperimenter.new),
+  ("NewBundleAdd", fun args => match args with
+    | [a] => ret1 (VendorHeader.mk Gen.openflow13.ONF_EXPERIMENTER_ID Gen.openflow13.Type_BundleAdd a)
+    | _ => .panic),
+  ("NewBundleError", msgCtor0 VendorError.new),
+  ("ParseBundleError", fun args => match args with
+    | [.num c] => if 2300 ≤ c ∧ c ≤ 2315 then .err else .ok []
+    | _ => .panic),
+  ("Parse", fun args => match args with
+    | [.bytes b] => do let v ← parse (b.length + 1) (Slice.exact b); ret1 v
+    | _ => .panic)
+]
+
+def methodsMsg : MethodTab := [
+  ("PacketOut.AddAction", fun recv args => match args with
+    | [a] => do let r ← PacketOut.addAction recv a; upd r
+    | _ => .panic),
+  ("PacketOut.SetData", fun recv args => match args with
+    | [.bytes b] => do let r ← PacketOut.setData recv b; upd r
+    | _ => .panic),
+  ("PacketOut.GetData", fun recv _ => do
+    let (r, bs) ← PacketOut.getDataWith anyMarshalM recv
+    pure (r, [.bytes bs])),
+  ("PacketIn.GetData", fun recv _ =>
+    match recv with
+    | .obj "PacketIn" [h, b, t, r, ti, c, m, pad, eth] =>
+      match PEthernet.marshalM eth with
+      | .ok (bs, eth) => .ok (.obj "PacketIn" [h, b, t, r, ti, c, m, pad, eth], [.bytes bs])
+      | .err => .ok (recv, [.bytes []])
+      | .panic => .panic
+      | .spin => .spin
+    | _ => .panic)
+]
 
 end OFV.Model
